@@ -86,7 +86,7 @@ def run(rep, tier):
     rep.ob("R09.1", "aead-sites", nenc >= 4 and ndec >= 4, "anchor: %d encrypt and %d decrypt sites found" % (nenc, ndec), ENC)
 
     # ------------------------------------------------------------------ R09.2 verify before use
-    rep.rule("R09.2", "metadata authentication dominates every backend payload read / reuse of a stored document; unchecked listing policy never used by the encrypted store", floor=7)
+    rep.rule("R09.2", "metadata authentication dominates every backend payload read / reuse of a stored document; unchecked listing policy never used by the encrypted store; Legacy answer only when every marker of the authenticated layout is absent", floor=12)
     VER = r"EncryptedStore::<T>::verify_metadata$|encryption::verify_metadata$|EncryptedStore::<T>::verified_metadata$"
     for method in ("get_opts", "get_ranges"):
         f = ostore.wrapper_fn(prog, "EncryptedStore", method)
@@ -152,6 +152,41 @@ def run(rep, tier):
     some_edge = [m["Some"] for (sb, place, adt, m, els) in le.variant_edges() if adt == "core::option::Option" and "Some" in m and "validator" in le.slice_fields({"c": {"l": place.l}})]
     ok = bool(val) and bool(aggs) and bool(okv) and all(not (le.reachable_from([t], avoid=okv) & set(aggs)) for t in some_edge) and bool(some_edge)
     rep.ob("R09.2", "validator-before-surface|listing_entry", ok, "when a validator is configured an entry is surfaced only on its Ok edge", le.file + ":%d" % le.line)
+
+    # legacy acceptance: verify_metadata may answer `Legacy` (unauthenticated, pre-authentication layout) only when *every*
+    # marker of the authenticated layout is absent - both auth fields, chunk_aad_version and the generation pointer - and
+    # strict mode is off.  Any of them present means the auth fields were stripped (downgrade).
+    vm = prog.fn(ENC + "::verify_metadata")
+    rep.saw(vm, len(vm.events))
+    legacy = [b for b in vm.live_blocks() for st in vm.stmts(b) if st[0] == "A" and st[2]["k"] == "agg"
+              and (st[2]["a"].get("def") or "").endswith("MetadataAuth") and st[2]["a"].get("v") == "Legacy"]
+    if not legacy:
+        raise CheckerFault("verify_metadata: the MetadataAuth::Legacy answer was not found")
+    from .c06_db import _bool_switch
+    for fld in ("chunk_aad_version", "generation", "auth_nonce", "auth_tag"):
+        # every way the code asks "is <fld> present?": is_some / is_none on the field, or a match on the Option
+        reach = []
+        site = vm.file + ":%d" % vm.line
+        for e in vm.calls_named(r"Option::<T>::is_some$"):
+            if fld in vm.slice_fields(e.args[0]):
+                reach.append(valueflow.reachable_if_result(vm, e, 1))
+                site = e.where()
+        for e in vm.calls_named(r"Option::<T>::is_none$"):
+            if fld in vm.slice_fields(e.args[0]):
+                reach.append(valueflow.reachable_if_result(vm, e, 0))
+                site = e.where()
+        for (sb, place, adt, m, els) in vm.variant_edges():
+            if adt == "core::option::Option" and "Some" in m and fld in vm.slice_fields({"c": {"l": place.l, "p": place.p if hasattr(place, "p") else []}}):
+                reach.append(valueflow.reachable_ps(vm, m["Some"]))
+        rep.ob("R09.2", "legacy-needs-absent|%s" % fld, bool(reach) and not any(r & set(legacy) for r in reach),
+               "a document that carries %s must never be accepted as unauthenticated legacy metadata "
+               "(the `present` edge of a test of that field reaches the Legacy answer, or the field is not tested at all)" % fld, site)
+    st_sw = [b for b in vm.live_blocks() if vm.term(b)["k"] == "switch" and core.op_place(vm.term(b)["o"]) is not None
+             and vm.var_name(core.op_place(vm.term(b)["o"]).l) == "strict" or
+             (vm.term(b)["k"] == "switch" and core.op_place(vm.term(b)["o"]) is not None and 4 in
+              {o[1] for o in vm.slice_back_local(core.op_place(vm.term(b)["o"]).l) if o[0] == "arg"})]
+    bad = [b for b in st_sw if valueflow.reachable_ps(vm, vm.term(b)["else"]) & set(legacy)]
+    rep.ob("R09.2", "legacy-needs-absent|strict", bool(st_sw) and not bad, "strict mode never answers Legacy", vm.file + ":%d" % vm.line)
 
     # ------------------------------------------------------------------ R09.3 nonce freshness
     rep.rule("R09.3", "every encryption nonce = derive_gcm_nonce(base from rand_bytes() of this write, counter) or rand_bytes(); never a stored document's nonce; counter advances", floor=6)
